@@ -2,6 +2,7 @@
  * equals the Standard's IPv6 serializer in brackets. */
 void harness(void) {
   arr_uint16_t_8_t a;
+  ND_FILL_U16(a, a.a, 8);
   str_t s = serializers_ipv6(&a);
   char ref[48]; size_t rn = ref_ipv6_serialize(a.a, ref);
   __CPROVER_assert(s.n == rn + 2 && s.d[0] == '[' && s.d[s.n - 1] == ']', "postcondition: bracketed, length of the Standard's serialization + 2");
